@@ -76,6 +76,7 @@ func (t *table) processWALInserts() {
 			t.db.Panic(fmt.Errorf("Unable to read from WAL: %v", err))
 		}
 		verifRead(t, t.wal.Offset())
+		verifPoint("wal.read")
 		in <- &walRead{data, t.wal.Offset(), 0}
 	}
 }
@@ -260,6 +261,7 @@ func (t *table) doInsert(ts time.Time, dims bytemap.ByteMap, vals bytemap.ByteMa
 		inserted++
 	}
 	for _, subVals := range additionalVals {
+		verifPoint("insert.split")
 		t.rowStore.insert(&insert{key, encoding.NewTSParams(ts, subVals), dims, offset, source})
 	}
 	t.statsMutex.Lock()
